@@ -229,3 +229,10 @@ def run(chk):
                     bound=f'{len(pool)} filters, sets of size <= {3 if chk.tier == "thorough" else 2} (size-2: every 3rd, size-3: every 17th combination by seed), 8 objects, memory + filesystem, 4 routes')
     finally:
         shutil.rmtree(tmp, ignore_errors=True)
+    # known finding (same root cause as in C11): custom content of an unregistered type is kept as a dictionary whose timestamps are text, and filters compare the text
+    ms = stix2.MemoryStore(allow_custom=True)
+    u = {'type': 'x-vf-unreg3', 'spec_version': '2.1', 'id': 'x-vf-unreg3--' + ID('x', 9).split('--')[1], 'created': '2020-01-01T00:00:00Z', 'modified': '2020-01-01T00:00:00Z'}
+    ms.add(u)
+    if not ms.query([stix2.Filter('modified', '=', '2020-01-01T00:00:00.000Z')]) or ms.query([stix2.Filter('modified', '<', '2020-01-01T00:00:00.000Z')]):
+        chk.violation('custom-dict#timestamps of dictionary-kept custom objects are compared as text',
+                      "a stored dictionary of an unregistered type with modified '2020-01-01T00:00:00Z' is not matched by Filter('modified', '=', '2020-01-01T00:00:00.000Z') (the same instant)", {'input': u})
